@@ -65,12 +65,15 @@ func (c *Collection) Snapshot(dst io.Writer) error {
 
 	// Take a snapshot of the current state
 	defer os.Remove(recorder.Name())
+	verifYield("s.open", 0)
 	if _, err := c.writeState(s2.NewWriter(dst)); err != nil {
 		return err
 	}
 
 	// Close the recorder
+	verifYield("s.close", 0)
 	c.recorderClose()
+	verifYield("s.copy", 0)
 	return recorder.Copy(dst)
 }
 
@@ -224,6 +227,7 @@ func (c *Collection) chunks() int {
 func (c *Collection) readChunk(chunk commit.Chunk, fn func(uint64, commit.Chunk, bitmap.Bitmap) error) error {
 
 	// Lock both the chunk and the fill list
+	verifYield("s.chunk", uint32(chunk))
 	c.slock.RLock(uint(chunk))
 	c.lock.Lock()
 	defer c.slock.RUnlock(uint(chunk))
